@@ -15,7 +15,7 @@ from .. import gamedata, gen, lang
 from ..diagnose import crosstalk_sites
 from ..rng import Chooser
 from .common import (ModelGap, Obs, Violation, World, base_result, blueprint_probes,
-                     compile_case, fmt_sigs, merge_fired, net_signature, probe, settle_bound,
+                     compile_case, fmt_sigs, input_inits, bind_input_aliases, merge_fired, net_signature, probe, settle_bound,
                      skeleton)
 
 PROP = "C05"
@@ -140,8 +140,8 @@ def run_case(case: dict) -> dict:
         interp = lang.Interp(stmts)
         latches = case["latches"]
         excl = set(case.get("exclude") or [])
-        vals = {i["name"]: i["init"] for i in case["inputs"]}
-        missing = [i["name"] for i in case["inputs"] if i["name"] not in obs.inputs]
+        vals = input_inits(case)
+        missing = bind_input_aliases(obs, case)
         bound = settle_bound(w) + 4
         state: dict[str, bool | None] = {l["mem"]: False for l in latches}
         prev_sr: dict[str, tuple | None] = {l["mem"]: None for l in latches}
